@@ -305,8 +305,12 @@ impl Pool {
                             }
                             Ok(_) => {}
                         }
-                        if line.starts_with(emark.as_bytes()) {
-                            let rest = String::from_utf8_lossy(&line[emark.len()..]).to_string();
+                        // the end marker normally starts a line; after output that did not end its
+                        // last line it follows that output directly
+                        let at = line.windows(emark.len()).position(|w| w == emark.as_bytes());
+                        if let Some(at) = at {
+                            captured.extend_from_slice(&line[..at]);
+                            let rest = String::from_utf8_lossy(&line[at + emark.len()..]).to_string();
                             let parts: Vec<&str> = rest.trim_end().split(' ').collect();
                             if parts.len() != 3 || parts[0] != n.to_string() {
                                 proto_err = Some(format!("bad end marker: {:?}", rest));
